@@ -474,7 +474,7 @@ func checkConcurrent(c Case) error {
 	return nil
 }
 
-var subConc = harness.Define("concurrent", "N in {2,4,8,16,32} goroutines x GOMAXPROCS in {2,4,16}, each running a generated list of independent jobs (Decode->Renderer->raster/vec, Decode->Encoder, Disassemble, DecodeViewBox, Generator->Encoder, Color.Resolve, AspectMeet/Slice, DecodeColor1, Decode with palette options, Decode without a Destination and an option that looks at the metadata, ParsePathData, Decode->recorder, zero-value Encoder, the goroutine's own Encoder Reset for graphic after graphic with metadata other goroutines use too, a caller keeping the metadata handed to its option, 17-58-stop gradients from one shared stop list of several colour models through Generator->Renderer, Decode through DestinationLogger and RasterizerLogger with stdout parked, Gradient values over one shared list of colour ranges with hard steps); the concurrent phase runs before the serial reference, so the first case of every process meets the packages cold over shared corpus graphics, generated streams, one shared palette and the package-level defaults, built with -race: no race report, every result equals the serial result, shared inputs and package variables unchanged; non-trivial = at least two goroutines share an input", checkConcurrent)
+var subConc = harness.Define("concurrent", "N in {2,4,8,16,32} goroutines x GOMAXPROCS in {2,4,16}, each running a generated list of independent jobs (Decode->Renderer->raster/vec, Decode->Encoder, Disassemble, DecodeViewBox, Generator->Encoder, Color.Resolve, AspectMeet/Slice, DecodeColor1, Decode with palette options, Decode without a Destination and an option that looks at the metadata, ParsePathData, Decode->recorder, zero-value Encoder, the goroutine's own Encoder Reset for graphic after graphic with metadata other goroutines use too, a caller keeping the metadata handed to its option, 17-58-stop gradients from one shared stop list of several colour models through Generator->Renderer, Decode through DestinationLogger and RasterizerLogger with stdout parked, Gradient values over one shared list of colour ranges with hard steps); the concurrent phase runs before the serial reference, so the first case of every process meets the packages cold over shared corpus graphics, generated streams, graphics cut off in the middle, one shared palette and the package-level defaults, built with -race: no race report, every result equals the serial result, shared inputs and package variables unchanged; non-trivial = at least two goroutines share an input", checkConcurrent)
 
 func TestConcurrent(t *testing.T) {
 	all := corpus.All()
@@ -495,6 +495,13 @@ func TestConcurrent(t *testing.T) {
 			b, _, _ := gen.Stream(t, gen.StreamCfg{AllowOpen: true, MaxRun: 10})
 			// keep generated inputs renderable by x/image/vector in reasonable time: grid coordinates only
 			c.Streams = append(c.Streams, b)
+		}
+		// graphics cut off in the middle (an operation that fails half-way leaves nothing behind
+		// for the next one, in whatever goroutine that runs)
+		for i := 0; i < 2; i++ {
+			d := all[rapid.IntRange(0, len(all)-1).Draw(t, "cutfile")].Data
+			c.Streams = append(c.Streams, append([]byte{}, d[:len(d)*rapid.IntRange(3, 7).Draw(t, "cutat")/8]...))
+			ns++
 		}
 		jobs := harness.N(24, 60)
 		for g := 0; g < n; g++ {
